@@ -78,9 +78,15 @@ func isNilData(d resp.RedisData) (isnil bool) {
 	return false
 }
 
-// dumpKeys: a full dump is repeated until two consecutive renderings agree (an expiry timer may fire in between)
+// dumpKeys: a full dump is repeated until two consecutive renderings agree (an expiry timer may fire in between); a rendering that
+// shows a deadline without a value ("~@<deadline>") may be the middle of the timer goroutine's CheckTTL (value deleted, deadline not
+// yet): it is retried for up to ~40 ms, so only a deadline that really stays behind is reported.
 func dumpKeys(mgr *server.Manager, spec string) string {
 	d := dumpKeysOnce(mgr, spec)
+	for i := 0; i < 20 && strings.Contains(d, "#~@"); i++ {
+		time.Sleep(2 * time.Millisecond)
+		d = dumpKeysOnce(mgr, spec)
+	}
 	if spec != "*" {
 		return d
 	}
